@@ -1,11 +1,20 @@
 """C20 - design.greedy_substitution: correspondence with coq/C20 (model + brute-force spec).
 
 The torch module handed to greedy_substitution is a two-layer network with integer weights
-in float64 whose outputs are multiples of `scale`; target, mask and loss are chosen so that
-every loss value the implementation computes (a mean over the masked outputs) is a dyadic
-rational with a handful of bits, hence exact in float64.  The same weights are printed into
-the Coq case, where model and spec evaluate the same loss in Z.
+whose outputs are multiples of `scale`; target, mask and loss are chosen so that every loss
+value the implementation computes (a mean over the masked outputs) is a dyadic rational with
+a handful of bits, hence exact in float64 (and in float32 for the bounded networks that are
+run in float32).  The same weights are printed into the Coq case, where model and spec
+evaluate the same loss in Z.
+
+One case is a SEQUENCE of calls made one after the other in one process; the caller's objects
+(X, y, mask, motif container, alphabet, network) are re-used between the calls of a sequence
+wherever their contents are equal, so state leaking from one call into the next (a stale cache,
+caller data modified in place) makes a later call disagree with the model, which judges every
+call on its nominal input.  A single call is a sequence of length one.
 """
+import contextlib
+import io
 import json
 import os
 import signal
@@ -15,6 +24,7 @@ from fractions import Fraction
 # spin-wait contention (measured 30x slower on a loaded 16-core host); must be set before numba loads
 os.environ.setdefault('NUMBA_NUM_THREADS', '2')
 
+import numpy
 import torch
 
 from . import common as C
@@ -25,17 +35,23 @@ IMPORTS = ['Base.OneHot', 'C01.Model', 'C20.Model', 'C20.Spec']
 CASE_TYPE = 'case'
 CHECK = 'check_case'
 SHARD = 40
-RULE = ('seeded random calls: exact integer two-layer position-sensitive networks (1-3 hidden units, relu or '
-        'linear, 1-8 outputs), sequences of length 8-40 over alphabets of 2-5 letters (mostly ACGT), 1-5 motifs '
-        'of length 1-8 (incl. full-length motifs at L=8 and directed cases whose unique best placement is the '
-        'last fitting position L-m), masks over the outputs or the default mask, default / MSE / L1 loss, '
-        'max_iter in {-1,0,1,2,3,4}, tol a dyadic rational in [0,1] or exactly the best first-round improvement '
-        '(boundary), batch sizes 1-64; compared: the returned sequence (the accepted (motif, position) rounds are '
-        'derived from the model run); non-trivial = the returned sequence differs from the start, i.e. at least '
-        'one accepted round')
+RULE = ('seeded random calls and call sequences: exact integer two-layer position-sensitive networks (1-3 hidden '
+        'units, relu or linear, 1-8 outputs, 2-D or 3-D output tensors, float64 or float32 parameters, eval or '
+        'train mode), sequences of length 8-40 over alphabets of 2-5 letters in any letter order, X as '
+        'float32/float64/int8/int64, 1-5 motifs of length 1-8 (incl. full-length motifs and directed cases whose '
+        'unique best placement is the last fitting position L-m) given as list/tuple/numpy array of strings, masks '
+        'as bool tensor/list/numpy/index tensor or the default, default / MSE / L1 / asymmetric callable loss, '
+        'max_iter in {-1,0,1,2,3,4} plus the exact number of available rounds +-1 (int/numpy/float/default), tol a '
+        'dyadic rational in [0,1], the default 1e-3, or exactly the best improvement of some round +-1/8 '
+        '(float/int/numpy/tensor/default), batch sizes 1-64 incl. exactly the number of candidates +-1, verbose, '
+        'the unused start argument; sequences of 2-5 calls in one process re-using the same objects with ONE thing '
+        'changed (repeat, max_iter, tol, mask, batch size, alphabet order with the same motif strings, alphabet '
+        'size, dtypes, loss, motif order); compared per call: the returned sequence and that no caller object was '
+        'modified; non-trivial = some call returns a sequence that differs from its start (an accepted round)')
 EXHAUSTIVE = {'quick': False, 'thorough': False}
 TRUSTED = ['the exact-arithmetic torch module (harness/c20.py Net) and the printing of its weights into the Coq case',
-           'float64 evaluates the generated losses exactly (checked per case on the starting sequence against Fractions)']
+           'floating point evaluates the generated losses exactly (checked per call on the starting sequence '
+           'against Fractions; float32 networks only when a bound on every intermediate value is below 2^22)']
 ASSUMPTIONS = ['loss is a deterministic function of one sequence: predict acts example-wise in eval mode '
                '(exercised with batch sizes 1-64)',
                'torch.argmin returns the first minimiser on exact ties',
@@ -44,8 +60,28 @@ ASSUMPTIONS = ['loss is a deterministic function of one sequence: predict acts e
 LETTERS = 'ACGTXY'
 MIN_L = 8
 TIMEOUT_S = 10          # a normal call takes milliseconds; a call that does not return counts as raised
+DEFAULT_TOL = Fraction(1e-3)            # the exact value of the default tol=1e-3
 _timeouts = [0]
 _hung = set()            # inputs (as JSON) on which the implementation did not return
+
+FORM_DEFAULTS = {'x_dtype': 'float32', 'net_dtype': 'float64', 'y_dtype': 'float64', 'mask_form': 'tensor',
+                 'tol_form': 'float', 'max_form': 'int', 'motifs_form': 'list', 'alphabet_form': 'list',
+                 'bs_form': 'int', 'verbose': False, 'start': None, 'train': False}
+DTYPES = {'float32': torch.float32, 'float64': torch.float64, 'int8': torch.int8, 'int64': torch.int64}
+
+
+def calls_of(inp):
+    if 'calls' in inp:
+        return inp['calls']
+    return [{k: v for k, v in inp.items() if not k.startswith('_')}]
+
+
+def form(call, k):
+    return call.get('forms', {}).get(k, FORM_DEFAULTS[k])
+
+
+def alphabet_of(call):
+    return call.get('alphabet') or LETTERS[:call['A']]
 
 
 # ----------------------------------------------------------------------------------------
@@ -59,7 +95,7 @@ def column(A, k):
 
 
 def py_forward(net, seq):
-    """seq: list of letter codes; returns the list of outputs (ints)."""
+    """seq: list of letter codes; returns the flat list of output units (ints)."""
     hs = []
     for w, b in zip(net['W1'], net['b1']):
         z = b + sum(w[p][k] for p, k in enumerate(seq) if 0 <= k < len(w[p]))
@@ -67,72 +103,179 @@ def py_forward(net, seq):
     return [net['scale'] * (sum(a * h for a, h in zip(w, hs)) + b) for w, b in zip(net['W2'], net['b2'])]
 
 
-def mask_of(inp):
-    n = len(inp['net']['W2'])
-    return inp['mask'] if inp['mask'] is not None else [True] * n
+def mask_of(call):
+    """mask over the n outputs (dimension 1 of the model output)"""
+    T = call.get('T') or 1
+    n = len(call['net']['W2']) // T
+    return call['mask'] if call['mask'] is not None else [True] * n
 
 
-def py_loss(inp, seq):
-    """exact mean loss over the masked outputs"""
-    out = py_forward(inp['net'], seq)
-    mk = mask_of(inp)
+def unit_mask(call):
+    """mask over the n*T output units in the order of W2's rows (row j*T + t)"""
+    T = call.get('T') or 1
+    return [m for m in mask_of(call) for _ in range(T)]
+
+
+def elem_loss(kind, d):
+    """loss(y, y_hat) with d = y - y_hat"""
+    if kind == 'l1':
+        return abs(d)
+    if kind == 'asym':
+        return 2 * max(0, d) + max(0, -d)
+    return d * d
+
+
+def py_loss(call, seq):
+    """exact mean loss over the masked output units"""
+    out = py_forward(call['net'], seq)
+    mk = unit_mask(call)
     tot = 0
-    for t, o, m in zip(inp['target'], out, mk):
+    for t, o, m in zip(call['target'], out, mk):
         if m:
-            d = inp['net']['scale'] * t - o
-            tot += abs(d) if inp['loss'] == 'l1' else d * d
+            tot += elem_loss(call['loss'], call['net']['scale'] * t - o)
     return Fraction(tot, sum(1 for m in mk if m))
 
 
-def py_best(inp, seq):
+def py_best(call, seq):
     """(best loss, motif idx, pos) over every fitting single substitution; None if none fits"""
     best = None
-    for i, mo in enumerate(inp['motifs']):
+    for i, mo in enumerate(call['motifs']):
         for p in range(len(seq) - len(mo) + 1):
             s = seq[:p] + mo + seq[p + len(mo):]
-            l = py_loss(inp, s)
+            l = py_loss(call, s)
             if best is None or l < best[0]:
                 best = (l, i, p)
     return best
+
+
+def py_rounds(call, tol=Fraction(0), limit=12):
+    """number of rounds an unlimited greedy run accepts (reference used to aim max_iter at its boundary)"""
+    seq = list(call['X'])
+    k = 0
+    while k < limit:
+        b = py_best(call, seq)
+        if b is None or py_loss(call, seq) - b[0] <= tol:
+            break
+        mo = call['motifs'][b[1]]
+        seq[b[2]:b[2] + len(mo)] = mo
+        k += 1
+    return k
+
+
+def magnitude_bound(call):
+    """upper bound on the sum over all output units of (y - y_hat)^2, any sequence"""
+    net = call['net']
+    hb = [abs(b) + sum(max(abs(v) for v in col) for col in w) for w, b in zip(net['W1'], net['b1'])]
+    tot = 0
+    for w, b, t in zip(net['W2'], net['b2'], call['target']):
+        o = net['scale'] * (sum(abs(a) * h for a, h in zip(w, hb)) + abs(b))
+        tot += (o + abs(net['scale'] * t)) ** 2
+    return tot
 
 
 # ----------------------------------------------------------------------------------------
 # the implementation side
 
 class Net(torch.nn.Module):
-    def __init__(self, net):
+    def __init__(self, net, dtype, T):
         super().__init__()
-        f = lambda v: torch.nn.Parameter(torch.tensor(v, dtype=torch.float64), requires_grad=False)
+        f = lambda v: torch.nn.Parameter(torch.tensor(v, dtype=dtype), requires_grad=False)
         self.W1 = f(net['W1'])          # (H, L, A)
         self.b1 = f(net['b1'])
-        self.W2 = f(net['W2'])          # (n, H)
+        self.W2 = f(net['W2'])          # (n*T, H)
         self.b2 = f(net['b2'])
         self.relu = bool(net['relu'])
         self.scale = float(net['scale'])
+        self.T = T
 
-    def forward(self, X):               # X: (N, A, L), cast to float64 by predict
+    def forward(self, X):               # X: (N, A, L), cast to the parameters' dtype by predict
         z = torch.einsum('nal,hla->nh', X, self.W1) + self.b1
         h = torch.relu(z) if self.relu else z
-        return self.scale * (h @ self.W2.T + self.b2)
+        o = self.scale * (h @ self.W2.T + self.b2)
+        return o.reshape(o.shape[0], -1, self.T) if self.T else o
 
 
-def to_tensor(A, seq):
-    X = torch.zeros(1, A, len(seq), dtype=torch.float32)
-    for p, k in enumerate(seq):
+def asym_loss(y, y_hat):
+    return 2 * torch.relu(y - y_hat) + torch.relu(y_hat - y)
+
+
+def loss_fn(kind):
+    if kind == 'mse':
+        return torch.nn.MSELoss(reduction='none')
+    if kind == 'l1':
+        return torch.nn.L1Loss(reduction='none')
+    if kind == 'asym':
+        return asym_loss
+    return None
+
+
+def x_tensor(call):
+    A = call['A']
+    X = torch.zeros(1, A, len(call['X']), dtype=DTYPES[form(call, 'x_dtype')])
+    for p, k in enumerate(call['X']):
         if 0 <= k < A:
             X[0, k, p] = 1
     return X
 
 
-def from_tensor(Y):
-    Y = Y.detach().cpu()
-    if Y.dim() != 3 or Y.shape[0] != 1 or not torch.equal(Y, Y.round()):
-        return 'malformed'
-    return Y[0].T.to(torch.int64).tolist()
+def y_tensor(call):
+    c = call['net']['scale']
+    T = call.get('T')
+    y = torch.tensor([[float(c * t) for t in call['target']]], dtype=DTYPES[form(call, 'y_dtype')])
+    return y.reshape(1, -1, T) if T else y
 
 
-def _key(inp):
-    return json.dumps({k: v for k, v in inp.items() if not k.startswith('_')}, sort_keys=True)
+def mask_obj(call):
+    if call['mask'] is None:
+        return None
+    f = form(call, 'mask_form')
+    if f == 'list':
+        return list(call['mask'])
+    if f == 'numpy':
+        return numpy.array(call['mask'], dtype=bool)
+    if f == 'index':
+        return torch.tensor([j for j, m in enumerate(call['mask']) if m], dtype=torch.int64)
+    return torch.tensor(call['mask'], dtype=torch.bool)
+
+
+def motif_strings(call):
+    al = alphabet_of(call)
+    return [''.join(al[k] if 0 <= k < len(al) else 'N' for k in mo) for mo in call['motifs']]
+
+
+def motifs_obj(call):
+    s = motif_strings(call)
+    f = form(call, 'motifs_form')
+    return tuple(s) if f == 'tuple' else numpy.array(s) if f == 'numpy' else list(s)
+
+
+def tol_obj(call):
+    tol = Fraction(call['tol'][0], call['tol'][1])
+    assert Fraction(float(tol)) == tol
+    f = form(call, 'tol_form')
+    if f == 'int':
+        assert tol.denominator == 1
+        return int(tol)
+    if f == 'np64':
+        return numpy.float64(float(tol))
+    if f == 'np32':
+        assert Fraction(float(numpy.float32(float(tol)))) == tol
+        return numpy.float32(float(tol))
+    if f == 'tensor':
+        return torch.tensor(float(tol), dtype=torch.float64)
+    return float(tol)
+
+
+def same(a, b):
+    if isinstance(a, torch.Tensor):
+        return isinstance(b, torch.Tensor) and a.dtype == b.dtype and a.shape == b.shape and torch.equal(a, b)
+    if isinstance(a, numpy.ndarray):
+        return isinstance(b, numpy.ndarray) and a.dtype == b.dtype and a.shape == b.shape and bool((a == b).all())
+    if isinstance(a, torch.nn.Module):
+        sa, sb = a.state_dict(), b.state_dict()
+        return (sa.keys() == sb.keys() and all(same(sa[k], sb[k]) for k in sa)
+                and a.relu == b.relu and a.scale == b.scale and a.T == b.T)
+    return type(a) == type(b) and a == b
 
 
 class _Timeout(Exception):
@@ -143,54 +286,287 @@ def _alarm(signum, frame):
     raise _Timeout()
 
 
-def loss_fn(kind):
-    if kind == 'mse':
-        return torch.nn.MSELoss(reduction='none')
-    if kind == 'l1':
-        return torch.nn.L1Loss(reduction='none')
-    return None
+def _key(inp):
+    return json.dumps({k: v for k, v in inp.items() if not k.startswith('_')}, sort_keys=True)
 
 
-def run_impl(inp):
-    from tangermeme.design import greedy_substitution
-    A = inp['A']
-    alphabet = list(LETTERS[:A])
-    X = to_tensor(A, inp['X'])
-    net = Net(inp['net'])
-    c = inp['net']['scale']
-    y = torch.tensor([[float(c * t) for t in inp['target']]], dtype=torch.float64)
-    mask = None if inp['mask'] is None else torch.tensor(inp['mask'], dtype=torch.bool)
-    motifs = [''.join(LETTERS[k] if 0 <= k < len(LETTERS) else 'N' for k in mo) for mo in inp['motifs']]
-    tol = Fraction(inp['tol'][0], inp['tol'][1])
-    assert Fraction(float(tol)) == tol
-    kw = {}
-    if inp['loss'] != 'default':
-        kw['loss'] = loss_fn(inp['loss'])
-    # the float computation must be exact on these inputs (trusted-base check, not a verdict)
+def from_tensor(Y):
+    if not isinstance(Y, torch.Tensor):
+        return 'malformed'
+    Y = Y.detach().cpu()
+    if Y.dim() != 3 or Y.shape[0] != 1 or not torch.equal(Y.double(), Y.double().round()):
+        return 'malformed'
+    return Y[0].T.to(torch.int64).tolist()
+
+
+def check_exact(call, net, X, y):
+    """trusted-base check, not a verdict: the float computation is exact on the starting sequence"""
+    A = call['A']
+    mk = torch.tensor(mask_of(call), dtype=torch.bool)
+    if not mk.any() or not all(0 <= k < A for k in call['X']):
+        return
     with torch.no_grad():
-        lf = loss_fn(inp['loss']) or torch.nn.MSELoss(reduction='none')
-        mk = torch.tensor(mask_of(inp), dtype=torch.bool)
-        l0 = lf(y[:, mk], net(X.double())[:, mk]).mean()
-        if mk.any() and all(0 <= k < A for k in inp['X']):
-            assert Fraction(float(l0)) == py_loss(inp, inp['X']), 'inexact float loss in harness net'
+        lf = loss_fn(call['loss']) or torch.nn.MSELoss(reduction='none')
+        dt = next(net.parameters()).dtype
+        was = net.training
+        l0 = lf(y[:, mk], net(X.to(dt))[:, mk]).mean()
+        net.train(was)
+    assert Fraction(float(l0)) == py_loss(call, call['X']), 'inexact float loss in harness net'
+
+
+def run_call(call, pool):
+    """one call of greedy_substitution; objects with equal contents are shared through `pool`"""
+    from tangermeme.design import greedy_substitution
+    used = []
+
+    def obj(kind, key, make):
+        k = (kind, json.dumps(key, sort_keys=True))
+        if k not in pool:
+            pool[k] = make()
+        used.append((pool[k], make))
+        return pool[k]
+
+    T = call.get('T')
+    al = alphabet_of(call)
+    X = obj('X', [form(call, 'x_dtype'), call['A'], call['X']], lambda: x_tensor(call))
+    y = obj('y', [form(call, 'y_dtype'), call['net']['scale'], call['target'], T], lambda: y_tensor(call))
+    net = obj('net', [form(call, 'net_dtype'), call['net'], T],
+              lambda: Net(call['net'], DTYPES[form(call, 'net_dtype')], T))
+    kw = {}
+    if call['mask'] is not None:
+        kw['mask'] = obj('mask', [form(call, 'mask_form'), call['mask']], lambda: mask_obj(call))
+    motifs = obj('motifs', [form(call, 'motifs_form'), motif_strings(call)], lambda: motifs_obj(call))
+    af = form(call, 'alphabet_form')
+    if af != 'default':
+        kw['alphabet'] = obj('alphabet', [af, al], (lambda: al) if af == 'str' else (lambda: list(al)))
+    else:
+        assert al == 'ACGT'
+    if form(call, 'tol_form') != 'default':
+        kw['tol'] = tol_obj(call)
+    else:
+        assert Fraction(call['tol'][0], call['tol'][1]) == DEFAULT_TOL
+    mf = form(call, 'max_form')
+    if mf != 'default':
+        kw['max_iter'] = {'np': numpy.int64, 'float': float}.get(mf, int)(call['max_iter'])
+    else:
+        assert call['max_iter'] == -1
+    bf = form(call, 'bs_form')
+    if bf != 'default':
+        kw['batch_size'] = numpy.int64(call['batch_size']) if bf == 'np' else int(call['batch_size'])
+    else:
+        assert call['batch_size'] == 32
+    if call['loss'] != 'default':
+        kw['loss'] = loss_fn(call['loss'])
+    if form(call, 'verbose'):
+        kw['verbose'] = True
+    if form(call, 'start') is not None:
+        kw['start'] = form(call, 'start')
+    check_exact(call, net, X, y)
+    net.train(bool(form(call, 'train')))
     old = signal.signal(signal.SIGALRM, _alarm)
-    # a non-terminating implementation would otherwise cost TIMEOUT_S per case: once two calls have
+    # a non-terminating implementation would otherwise cost TIMEOUT_S per call: once two calls have
     # hung, later calls get 0.5 s (still ~50x a normal call), after ten 0.15 s; the limits only shrink once the
     # implementation has already hung, i.e. once a violation is certain
     signal.setitimer(signal.ITIMER_REAL, TIMEOUT_S if _timeouts[0] < 2 else (0.5 if _timeouts[0] < 10 else 0.15))
     try:
-        Y = greedy_substitution(net, X, motifs, y, mask=mask, tol=float(tol), max_iter=inp['max_iter'],
-                                alphabet=alphabet, batch_size=inp['batch_size'], device='cpu', **kw)
+        with contextlib.redirect_stdout(io.StringIO()), contextlib.redirect_stderr(io.StringIO()):
+            Y = greedy_substitution(net, X, motifs, y, device='cpu', **kw)
         out = {'ok': True, 'Y': from_tensor(Y)}
     except _Timeout:
         _timeouts[0] += 1
-        _hung.add(_key(inp))
         out = {'ok': False, 'err': 'timeout'}
     except Exception as e:
         out = {'ok': False, 'err': type(e).__name__}
     finally:
         signal.setitimer(signal.ITIMER_REAL, 0)
         signal.signal(signal.SIGALRM, old)
+    net.train(False)
+    out['unchanged'] = all(same(o, make()) for o, make in used)
+    return out
+
+
+def _run_here(inp):
+    pool = {}
+    outs = [run_call(call, pool) for call in calls_of(inp)]
+    return {'outs': outs, 'ok': all(o['ok'] for o in outs)}
+
+
+# ---- process isolation.  This process never calls into tangermeme.  A pristine "zygote" child is forked
+# first (no numba/torch worker threads, nothing of tangermeme ever called in it); the implementation runs in
+# workers forked from the zygote, i.e. in processes whose tangermeme state is that of a fresh import:
+#   * a call SEQUENCE runs in a worker of its own, so a sequence that fails does so by itself and its replay
+#     reproduces; once shrinking has started every candidate gets a worker of its own too;
+#   * the single calls of the main pass share one long-lived "warm" worker (fast; state leaking from one case
+#     into the next still shows as a disagreement);
+#   * a worker that dies (crash in native code, e.g. an out-of-bounds write of the numba kernel) counts as every
+#     call of that case having raised, and the next case gets a new worker.
+
+_zyg = {'pid': None, 'w': None, 'r': None, 'broken': False}
+_isolate = [False]
+
+
+def _read_exact(fd, n):
+    buf = b''
+    while len(buf) < n:
+        b = os.read(fd, n - len(buf))
+        if not b:
+            return None
+        buf += b
+    return buf
+
+
+def _write_all(fd, data):
+    while data:
+        k = os.write(fd, data)
+        data = data[k:]
+
+
+def _send(fd, obj):
+    data = json.dumps(obj).encode()
+    _write_all(fd, b'%012d' % len(data) + data)
+
+
+def _recv(fd):
+    try:
+        h = _read_exact(fd, 12)
+        if h is None:
+            return None
+        data = _read_exact(fd, int(h))
+    except OSError:
+        return None
+    return None if data is None else json.loads(data)
+
+
+def _worker_main(rfd, wfd):
+    signal.signal(signal.SIGPIPE, signal.SIG_DFL)
+    while True:
+        req = _recv(rfd)
+        if req is None:
+            os._exit(0)
+        try:
+            _timeouts[0] = req['timeouts']
+            payload = {'out': _run_here(req['inp']), 'timeouts': _timeouts[0]}
+        except BaseException as e:
+            payload = {'error': repr(e)}
+        _send(wfd, payload)
+
+
+def _spawn_worker(keep_closed):
+    r1, w1 = os.pipe()          # zygote -> worker
+    r2, w2 = os.pipe()          # worker -> zygote
+    pid = os.fork()
+    if pid == 0:
+        try:
+            os.close(w1)
+            os.close(r2)
+            for fd in keep_closed:
+                try:
+                    os.close(fd)
+                except OSError:
+                    pass
+            _worker_main(r1, w2)
+        finally:
+            os._exit(0)
+    os.close(r1)
+    os.close(w2)
+    return {'pid': pid, 'w': w1, 'r': r2}
+
+
+def _retire(wk):
+    for fd in (wk['w'], wk['r']):
+        try:
+            os.close(fd)
+        except OSError:
+            pass
+    try:
+        _, status = os.waitpid(wk['pid'], 0)
+    except OSError:
+        status = -1
+    return status
+
+
+def _zygote_main(rfd, wfd):
+    signal.signal(signal.SIGPIPE, signal.SIG_IGN)
+    try:
+        import tangermeme.design          # import only: nothing of tangermeme is ever called in the zygote
+    except Exception:
+        pass
+    warm = None
+    while True:
+        req = _recv(rfd)
+        if req is None:
+            if warm is not None:
+                _retire(warm)
+            os._exit(0)
+        fresh = req.pop('fresh')
+        if fresh or warm is None:
+            wk = _spawn_worker([rfd, wfd] + ([warm['w'], warm['r']] if warm is not None else []))
+        else:
+            wk = warm
+        try:
+            _send(wk['w'], req)
+            res = _recv(wk['r'])
+        except OSError:
+            res = None
+        if res is None:                       # the worker died while running this case
+            res = {'crash': _retire(wk)}
+            if wk is warm:
+                warm = None
+        elif fresh:
+            _retire(wk)
+        else:
+            warm = wk
+        _send(wfd, res)
+
+
+def _zygote():
+    if _zyg['pid'] is None and not _zyg['broken']:
+        try:
+            pr, cw = os.pipe()          # zygote -> parent
+            cr, pw = os.pipe()          # parent -> zygote
+            pid = os.fork()
+            if pid == 0:
+                os.close(pr)
+                os.close(pw)
+                try:
+                    _zygote_main(cr, cw)
+                finally:
+                    os._exit(0)
+            os.close(cr)
+            os.close(cw)
+            _zyg.update(pid=pid, w=pw, r=pr)
+        except OSError:
+            _zyg['broken'] = True
+    return _zyg
+
+
+def _run_isolated(inp, fresh):
+    z = _zygote()
+    if z['broken'] or z['pid'] is None:
+        return _run_here(inp)
+    try:
+        _send(z['w'], {'inp': inp, 'timeouts': _timeouts[0], 'fresh': bool(fresh)})
+        res = _recv(z['r'])
+    except OSError:
+        res = None
+    if res is None:
+        z['broken'] = True
+        return _run_here(inp)
+    if 'error' in res:
+        raise RuntimeError('harness error in worker: %s' % res['error'])
+    if 'crash' in res:
+        n = len(calls_of(inp))
+        return {'outs': [{'ok': False, 'err': 'process died (status %s)' % res['crash'], 'unchanged': True}
+                         for _ in range(n)], 'ok': False}
+    _timeouts[0] = res['timeouts']
+    return res['out']
+
+
+def run_impl(inp):
+    inp = {k: v for k, v in inp.items() if not k.startswith('_')}
+    out = _run_isolated(inp, fresh=len(calls_of(inp)) > 1 or _isolate[0])
+    if any(o.get('err') == 'timeout' for o in out['outs']):
+        _hung.add(_key(inp))
     return out
 
 
@@ -201,17 +577,20 @@ def dna_lit(A, seq):
     return C.lst([C.zlist(column(A, k)) for k in seq])
 
 
-def coq_case(inp, out):
-    A = inp['A']
-    net = inp['net']
+KIND = {'default': 0, 'mse': 0, 'l1': 1, 'asym': 2}
+
+
+def call_lit(call, out):
+    A = call['A']
+    net = call['net']
     c = net['scale']
     netl = '(Net %s %s %s %s %s %s)' % (C.lst([C.zmat(w) for w in net['W1']]), C.zlist(net['b1']),
                                         C.boolean(net['relu']), C.zmat(net['W2']), C.zlist(net['b2']), C.z(c))
-    fuel = inp.get('fuel') or (inp['max_iter'] + 1 if inp['max_iter'] >= 0 else 48)
-    call = '(Call %s %s %s %s %s %s %s %s %s %s %s)' % (
-        C.nat(A), dna_lit(A, inp['X']), C.lst([dna_lit(A, mo) for mo in inp['motifs']]), netl,
-        C.zlist([c * t for t in inp['target']]), C.lst([C.boolean(b) for b in mask_of(inp)]),
-        C.boolean(inp['loss'] == 'l1'), C.z(inp['tol'][0]), C.z(inp['tol'][1]), C.z(inp['max_iter']),
+    fuel = call.get('fuel') or (call['max_iter'] + 1 if call['max_iter'] >= 0 else 48)
+    cl = '(Call %s %s %s %s %s %s %s %s %s %s %s)' % (
+        C.nat(A), dna_lit(A, call['X']), C.lst([dna_lit(A, mo) for mo in call['motifs']]), netl,
+        C.zlist([c * t for t in call['target']]), C.lst([C.boolean(b) for b in unit_mask(call)]),
+        C.nat(KIND[call['loss']]), C.z(call['tol'][0]), C.z(call['tol'][1]), C.z(call['max_iter']),
         C.nat(fuel))
     if out['ok'] and isinstance(out['Y'], list):
         o = '(Ok %s)' % C.lst([C.zlist(col) for col in out['Y']])
@@ -219,17 +598,26 @@ def coq_case(inp, out):
         o = '(Ok [[7]])'          # not a (1, A, L) integral tensor: certainly not the expected sequence
     else:
         o = 'Err'
-    return '(%s, %s)' % (call, o)
+    return '(%s, %s, %s)' % (cl, o, C.boolean(out.get('unchanged', True)))
+
+
+def coq_case(inp, out):
+    return C.lst([call_lit(c, o) for c, o in zip(calls_of(inp), out['outs'])])
 
 
 def nontrivial(inp, out):
-    return bool(out['ok']) and out['Y'] != [column(inp['A'], k) for k in inp['X']]
+    return any(o['ok'] and o['Y'] != [column(c['A'], k) for k in c['X']]
+               for c, o in zip(calls_of(inp), out['outs']))
 
 
 def hist_key(inp, out):
+    calls = calls_of(inp)
+    s = inp.get('stream') or ('corpus' if '_corpus' in inp else 'single')
     if not out['ok']:
-        return 'raise'
-    return '%s/max_iter=%d/%s' % ('changed' if nontrivial(inp, out) else 'unchanged', inp['max_iter'], inp['loss'])
+        return s + '/raise'
+    if len(calls) > 1:
+        return '%s/%d calls' % (s, len(calls))
+    return '%s/%s/max_iter=%d' % (s, 'changed' if nontrivial(inp, out) else 'unchanged', calls[0]['max_iter'])
 
 
 def tags(inp, out):
@@ -245,6 +633,10 @@ def odd_part(n):
     return n
 
 
+def clone(x):
+    return json.loads(json.dumps(x))
+
+
 def rand_net(rng, A, L, n, H, wmax, density):
     W1 = [[[(rng.randint(-wmax, wmax) if rng.random() < density else 0) for _ in range(A)] for _ in range(L)]
           for _ in range(H)]
@@ -258,8 +650,15 @@ def rand_net(rng, A, L, n, H, wmax, density):
 
 
 def rand_mask(rng, n):
-    if rng.random() < 0.3:
+    r = rng.random()
+    if r < 0.3:
         return None
+    if r < 0.36:
+        return [True] * n                         # explicit all-True mask
+    if r < 0.42:
+        m = [False] * n                           # a single output
+        m[rng.randrange(n)] = True
+        return m
     m = [rng.random() < 0.6 for _ in range(n)]
     if not any(m):
         m[rng.randrange(n)] = True
@@ -269,72 +668,121 @@ def rand_mask(rng, n):
 TOLS = [(0, 1), (0, 1), (1, 8), (1, 4), (1, 2), (3, 4), (1, 1), (1, 1)]
 
 
-def finish(rng, inp, boundary=True):
-    """choose scale from the mask, the target from a reachable design, tol, max_iter, batch size"""
-    n = len(inp['net']['W2'])
-    inp['mask'] = inp.get('mask', None)
-    nm = sum(mask_of(inp))
-    inp['net']['scale'] = odd_part(nm)
-    inp['loss'] = inp.get('loss') or rng.choice(['default', 'mse', 'l1'])
-    if 'target' not in inp:
+def rescale(call):
+    """scale = odd part of the number of masked output units, so that every mean is dyadic"""
+    call['net']['scale'] = odd_part(sum(unit_mask(call)))
+
+
+def rand_forms(rng, call, p=0.3):
+    """input forms / dtypes / optional arguments of the API, each varied with probability p"""
+    f = {}
+    pick = lambda k, opts: f.__setitem__(k, rng.choice(opts)) if rng.random() < p else None
+    pick('x_dtype', ['int8', 'int8', 'float64', 'int64'])
+    pick('y_dtype', ['float32'])
+    if magnitude_bound(call) < 2 ** 22:
+        pick('net_dtype', ['float32'])
+    if call['mask'] is not None:
+        pick('mask_form', ['list', 'numpy', 'index'])
+    tol = Fraction(call['tol'][0], call['tol'][1])
+    opts = ['np64', 'tensor'] + (['int'] if tol.denominator == 1 else []) + \
+           (['np32'] if tol.denominator <= 2 ** 20 and tol.numerator < 2 ** 20 else [])
+    if tol == DEFAULT_TOL:
+        f['tol_form'] = 'default' if rng.random() < 0.7 else 'float'
+    else:
+        pick('tol_form', opts)
+    pick('max_form', ['np', 'float'] + (['default', 'default'] if call['max_iter'] == -1 else []))
+    pick('motifs_form', ['tuple', 'numpy'])
+    pick('alphabet_form', ['str'] + (['default', 'default'] if alphabet_of(call) == 'ACGT' else []))
+    pick('bs_form', ['np'] + (['default', 'default'] if call['batch_size'] == 32 else []))
+    if rng.random() < p / 3:
+        f['verbose'] = True
+    if rng.random() < p / 3:
+        f['start'] = rng.randint(0, len(call['X']))
+    if rng.random() < p / 2:
+        f['train'] = True
+    call['forms'] = f
+    return call
+
+
+def finish(rng, call, boundary=True, forms=True):
+    """choose scale from the mask, the target from a reachable design, tol, max_iter, batch size, forms"""
+    call['mask'] = call.get('mask', None)
+    call['T'] = call.get('T')
+    rescale(call)
+    call['loss'] = call.get('loss') or rng.choice(['default', 'default', 'mse', 'l1', 'asym'])
+    if 'target' not in call:
         # outputs of a sequence obtained by planting a few motifs: reachable, so rounds get accepted
-        goal = list(inp['X'])
+        goal = list(call['X'])
         for _ in range(rng.randint(1, 3)):
-            mo = rng.choice(inp['motifs'])
+            mo = rng.choice(call['motifs'])
             if len(mo) <= len(goal):
                 p = rng.randint(0, len(goal) - len(mo))
                 goal[p:p + len(mo)] = mo
-        sc = inp['net']['scale']
-        inp['target'] = [o // sc + (rng.choice([-1, 1]) if rng.random() < 0.15 else 0)
-                         for o in py_forward(inp['net'], goal)]
-    inp['max_iter'] = inp.get('max_iter', rng.choice([-1, -1, 0, 1, 2, 3, 4]))
-    inp['batch_size'] = rng.choice([1, 2, 3, 5, 7, 16, 32, 64])
-    if 'tol' not in inp:
+        sc = call['net']['scale']
+        call['target'] = [o // sc + (rng.choice([-1, 1]) if rng.random() < 0.15 else 0)
+                          for o in py_forward(call['net'], goal)]
+    call['max_iter'] = call.get('max_iter', rng.choice([-1, -1, 0, 1, 2, 3, 4]))
+    call['batch_size'] = call.get('batch_size') or rng.choice([1, 2, 3, 5, 7, 16, 32, 32, 64])
+    if 'tol' not in call:
         tol = rng.choice(TOLS)
         r = rng.random()
         if boundary and r < 0.35:
             # exactly the best improvement available in some round of the tol=0 run (or one notch
             # below / above): the "not above tol" boundary
-            seq = list(inp['X'])
+            seq = list(call['X'])
             for _ in range(rng.randint(0, 2)):
-                b = py_best(inp, seq)
-                if b is None or py_loss(inp, seq) - b[0] <= 0:
+                b = py_best(call, seq)
+                if b is None or py_loss(call, seq) - b[0] <= 0:
                     break
-                mo = inp['motifs'][b[1]]
+                mo = call['motifs'][b[1]]
                 seq[b[2]:b[2] + len(mo)] = mo
-            b = py_best(inp, seq)
+            b = py_best(call, seq)
             if b is not None:
-                imp = py_loss(inp, seq) - b[0]
+                imp = py_loss(call, seq) - b[0]
                 imp += rng.choice([0, 0, 0, Fraction(-1, 8), Fraction(1, 8)])
                 if imp >= 0 and imp.denominator <= 64:
                     tol = (imp.numerator, imp.denominator)
-        inp['tol'] = list(tol)
-    return inp
+        elif r < 0.43:
+            tol = (DEFAULT_TOL.numerator, DEFAULT_TOL.denominator)       # the default tol = 1e-3
+        call['tol'] = list(tol)
+    if forms:
+        rand_forms(rng, call)
+    return call
 
 
-def rand_case(rng, quick):
+def rand_alphabet(rng, A):
+    al = list(LETTERS[:A])
+    if rng.random() < 0.35:
+        rng.shuffle(al)
+    return ''.join(al)
+
+
+def rand_call(rng, quick, small=False):
     A = rng.choice([4, 4, 4, 4, 4, 2, 3, 5])
-    if quick:
+    if small:
+        L = rng.choice([8, 8, 9, 10, 12, 14])
+    elif quick:
         L = rng.choice([8, 8, 9, 10, 11, 12, 14, 16, 20, 24, 31, 40])
     else:
         L = rng.choice([8, 8, 9] + list(range(8, 41)))
-    k = rng.randint(1, 5)
+    k = rng.randint(1, 3 if small else 5)
     motifs = []
     for _ in range(k):
         m = rng.choice([1, 1, 2, 2, 3, 3, 4, 5, 6, 7, 8])
         motifs.append([rng.randrange(A) for _ in range(m)])
     if L == 8 and rng.random() < 0.5:
         motifs[rng.randrange(k)] = [rng.randrange(A) for _ in range(8)]      # full-length motif
-    n = rng.randint(1, 8)
+    T = rng.choice([2, 3]) if rng.random() < 0.15 else None
+    n = rng.randint(1, 4 if T else 8)
     H = rng.randint(1, 3)
-    small = rng.random() < 0.5
-    net = rand_net(rng, A, L, n, H, 1 if small else 3, rng.choice([0.15, 0.4, 0.8]))
-    inp = {'A': A, 'X': [rng.randrange(A) for _ in range(L)], 'motifs': motifs, 'net': net,
-           'mask': rand_mask(rng, n)}
-    return finish(rng, inp)
+    small_w = rng.random() < 0.5
+    net = rand_net(rng, A, L, n * (T or 1), H, 1 if small_w else 3, rng.choice([0.15, 0.4, 0.8]))
+    call = {'A': A, 'alphabet': rand_alphabet(rng, A), 'X': [rng.randrange(A) for _ in range(L)],
+            'motifs': motifs, 'net': net, 'mask': rand_mask(rng, n), 'T': T}
+    return finish(rng, call)
 
 
-def last_position_case(rng):
+def last_position_call(rng):
     """the unique best placement of motif 0 is the last fitting position L - m"""
     A = 4
     L = rng.randint(8, 40)
@@ -355,12 +803,12 @@ def last_position_case(rng):
     motifs = [mo] + [[rng.randrange(A) for _ in range(rng.randint(1, 8))] for _ in range(rng.randint(0, 3))]
     if rng.random() < 0.5:
         rng.shuffle(motifs)
-    inp = {'A': A, 'X': X, 'motifs': motifs, 'net': net, 'mask': rand_mask(rng, n), 'target': [m] * n,
-           'max_iter': rng.choice([-1, 1, 2, 4])}
-    return finish(rng, inp, boundary=False)
+    call = {'A': A, 'alphabet': rand_alphabet(rng, A), 'X': X, 'motifs': motifs, 'net': net,
+            'mask': rand_mask(rng, n), 'target': [m] * n, 'max_iter': rng.choice([-1, 1, 2, 4])}
+    return finish(rng, call, boundary=False)
 
 
-def tol_band_case(rng):
+def tol_band_call(rng):
     """small weights, power-of-two mask: improvements of 1/8 .. 1 are common, tol inside [0,1] bites"""
     A = 4
     L = rng.randint(8, 24)
@@ -372,86 +820,287 @@ def tol_band_case(rng):
         if not any(net['W2'][j]):
             net['W2'][j][rng.randrange(H)] = 1
     motifs = [[rng.randrange(A) for _ in range(rng.choice([1, 1, 2, 3]))] for _ in range(rng.randint(1, 4))]
-    inp = {'A': A, 'X': [rng.randrange(A) for _ in range(L)], 'motifs': motifs, 'net': net, 'mask': None,
-           'loss': rng.choice(['l1', 'l1', 'default', 'mse']), 'max_iter': rng.choice([-1, -1, 2, 4])}
-    return finish(rng, inp)
+    call = {'A': A, 'X': [rng.randrange(A) for _ in range(L)], 'motifs': motifs, 'net': net, 'mask': None,
+            'loss': rng.choice(['l1', 'l1', 'asym', 'default', 'mse']), 'max_iter': rng.choice([-1, -1, 2, 4])}
+    return finish(rng, call)
+
+
+def boundary_call(rng, quick):
+    """integer parameters at their boundaries: batch_size around the number of candidates, max_iter around the
+    number of rounds an unlimited run accepts, motif lengths 1 / L-1 / L, L = 8 and 40"""
+    call = rand_call(rng, quick, small=rng.random() < 0.6)
+    L = len(call['X'])
+    A = call['A']
+    kind = rng.choice(['bs', 'bs', 'max', 'max', 'len'])
+    if kind == 'len':
+        call['motifs'][0] = [rng.randrange(A) for _ in range(rng.choice([1, min(8, L), min(8, L - 1)]))]
+        kind = rng.choice(['bs', 'max'])
+    tol = Fraction(call['tol'][0], call['tol'][1])
+    if kind == 'bs':
+        ncand = L - len(rng.choice(call['motifs'])) + 1
+        call['batch_size'] = max(1, rng.choice([ncand, ncand - 1, ncand + 1, 1, L + 1]))
+    else:
+        k = py_rounds(call, tol)
+        call['max_iter'] = max(0, rng.choice([k, k, k - 1, k + 1, 0, 1]))
+    f = call.get('forms', {})
+    if f.get('bs_form') == 'default' and call['batch_size'] != 32:
+        f.pop('bs_form')
+    if f.get('max_form') == 'default' and call['max_iter'] != -1:
+        f.pop('max_form')
+    return call
+
+
+# ---- sequences: the same objects re-used, ONE thing changed per step
+
+def v_repeat(rng, c):
+    return c
+
+
+def v_max_iter(rng, c):
+    c['max_iter'] = rng.choice([x for x in (-1, 0, 1, 2, 3) if x != c['max_iter']])
+    c.get('forms', {}).pop('max_form', None)
+    return c
+
+
+def v_tol(rng, c):
+    c['tol'] = list(rng.choice([t for t in TOLS if list(t) != c['tol']]))
+    c.get('forms', {}).pop('tol_form', None)
+    return c
+
+
+def v_mask(rng, c):
+    T = c.get('T') or 1
+    n = len(c['net']['W2']) // T
+    old = sum(unit_mask(c))
+    for _ in range(20):
+        m = rand_mask(rng, n)
+        c2 = dict(c, mask=m)
+        # the scale is part of the network: keep it (same objects), so keep the odd part of the count
+        if m != c['mask'] and odd_part(sum(unit_mask(c2))) == odd_part(old):
+            c['mask'] = m
+            break
+    if c['mask'] is None:
+        c.get('forms', {}).pop('mask_form', None)
+    return c
+
+
+def v_batch(rng, c):
+    c['batch_size'] = rng.choice([x for x in (1, 2, 3, 5, 64) if x != c['batch_size']])
+    c.get('forms', {}).pop('bs_form', None)
+    return c
+
+
+def v_alphabet(rng, c):
+    """another letter order, the SAME motif strings and the same X tensor"""
+    old = alphabet_of(c)
+    al = list(old)
+    for _ in range(10):
+        rng.shuffle(al)
+        if ''.join(al) != old:
+            break
+    new = ''.join(al)
+    c['motifs'] = [[new.index(old[k]) for k in mo] for mo in c['motifs']]
+    c['alphabet'] = new
+    if c.get('forms', {}).get('alphabet_form') == 'default':
+        c['forms'].pop('alphabet_form')
+    return c
+
+
+def v_smaller_alphabet(rng, c):
+    """one letter fewer: every array gets another shape"""
+    A = c['A']
+    if A <= 2:
+        return c
+    old = alphabet_of(c)
+    c['A'] = A - 1
+    c['alphabet'] = old[:A - 1]
+    c['X'] = [k % (A - 1) for k in c['X']]
+    c['motifs'] = [[k % (A - 1) for k in mo] for mo in c['motifs']]
+    c['net']['W1'] = [[col[:A - 1] for col in w] for w in c['net']['W1']]
+    if c.get('forms', {}).get('alphabet_form') == 'default':
+        c['forms'].pop('alphabet_form')
+    return c
+
+
+def v_x_dtype(rng, c):
+    f = c.setdefault('forms', {})
+    f['x_dtype'] = rng.choice([d for d in DTYPES if d != form(c, 'x_dtype')])
+    return c
+
+
+def v_net_dtype(rng, c):
+    f = c.setdefault('forms', {})
+    if form(c, 'net_dtype') == 'float32':
+        f['net_dtype'] = 'float64'
+    elif magnitude_bound(c) < 2 ** 22:
+        f['net_dtype'] = 'float32'
+    return c
+
+
+def v_loss(rng, c):
+    c['loss'] = rng.choice([k for k in ('default', 'l1', 'asym') if k != c['loss']])
+    return c
+
+
+def v_motif_order(rng, c):
+    if len(c['motifs']) > 1:
+        c['motifs'] = c['motifs'][1:] + c['motifs'][:1]
+    else:
+        c['motifs'] = c['motifs'] + [[rng.randrange(c['A'])]]
+    return c
+
+
+def v_x(rng, c):
+    p = rng.randrange(len(c['X']))
+    c['X'][p] = (c['X'][p] + 1) % c['A']
+    return c
+
+
+VARIANTS = [v_repeat, v_repeat, v_max_iter, v_tol, v_mask, v_batch, v_alphabet, v_alphabet, v_smaller_alphabet,
+            v_x_dtype, v_net_dtype, v_loss, v_motif_order, v_x]
+
+
+def sequence_case(rng, quick):
+    base = rand_call(rng, quick, small=True)
+    if rng.random() < 0.6:
+        base['max_iter'] = rng.choice([1, 1, 2])          # so that a repeated call is not idempotent
+        base.get('forms', {}).pop('max_form', None)
+    calls = [base]
+    cur = base
+    for _ in range(rng.randint(1, 4)):
+        v = rng.choice(VARIANTS)
+        nxt = v(rng, clone(cur))
+        calls.append(nxt)
+        cur = nxt if rng.random() < 0.5 else base        # a chain of changes, or back to the first call
+        if cur is base and rng.random() < 0.3:
+            calls.append(clone(base))
+    return {'calls': calls, 'stream': 'sequence'}
+
+
+def wrap(call, stream):
+    return {'calls': [call], 'stream': stream}
 
 
 def generate(tier, rng):
     quick = tier != 'thorough'
-    n_rand, n_last, n_tol = (1000, 150, 350) if quick else (8000, 1000, 3000)
+    n_rand, n_last, n_tol, n_bnd, n_seq = (520, 100, 230, 160, 150) if quick else (4200, 800, 1800, 1300, 1100)
+    for _ in range(n_seq):               # first: they run isolated, so a failing one is self-contained
+        yield sequence_case(rng, quick)
     for _ in range(n_last):
-        yield last_position_case(rng)
+        yield wrap(last_position_call(rng), 'last-position')
     for _ in range(n_tol):
-        yield tol_band_case(rng)
+        yield wrap(tol_band_call(rng), 'tol-band')
+    for _ in range(n_bnd):
+        yield wrap(boundary_call(rng, quick), 'boundary')
     for _ in range(n_rand):
-        yield rand_case(rng, quick)
+        yield wrap(rand_call(rng, quick), 'random')
 
 
 def search(rng, disagreeing):
-    for _ in range(150):
-        yield last_position_case(rng)
-    for _ in range(250):
-        yield tol_band_case(rng)
+    for _ in range(120):
+        yield wrap(last_position_call(rng), 'last-position')
+    for _ in range(200):
+        yield wrap(tol_band_call(rng), 'tol-band')
+    for _ in range(80):
+        yield sequence_case(rng, True)
 
 
 # ----------------------------------------------------------------------------------------
 # shrinking
 
-def _cut(inp, lo, hi):
+def _cut(call, lo, hi):
     """keep columns lo..hi-1"""
-    c = dict(inp)
-    c['X'] = inp['X'][lo:hi]
-    c['net'] = dict(inp['net'], W1=[w[lo:hi] for w in inp['net']['W1']])
+    c = dict(call)
+    c['X'] = call['X'][lo:hi]
+    c['net'] = dict(call['net'], W1=[w[lo:hi] for w in call['net']['W1']])
     return c
 
 
-def shrink(inp):
-    inp = {k: v for k, v in inp.items() if not k.startswith('_')}
-    L = len(inp['X'])
-    longest = max([len(m) for m in inp['motifs']] + [1])
+def shrink_call(call, hung):
+    L = len(call['X'])
+    longest = max([len(m) for m in call['motifs']] + [1])
     floor = max(longest, MIN_L)               # stay inside the property's range of lengths
     cands = []
-    if len(inp['motifs']) > 1:
-        for i in range(len(inp['motifs'])):
-            cands.append(dict(inp, motifs=inp['motifs'][:i] + inp['motifs'][i + 1:]))
+    if len(call['motifs']) > 1:
+        for i in range(len(call['motifs'])):
+            cands.append(dict(call, motifs=call['motifs'][:i] + call['motifs'][i + 1:]))
     if L // 2 >= floor:
-        cands.append(_cut(inp, 0, L // 2))
-        cands.append(_cut(inp, L - L // 2, L))
+        cands.append(_cut(call, 0, L // 2))
+        cands.append(_cut(call, L - L // 2, L))
     if L > floor:
-        cands.append(_cut(inp, 0, L - 1))
-        cands.append(_cut(inp, 1, L))
-    if _key(inp) in _hung:                    # every candidate may cost a timeout: try only a few
+        cands.append(_cut(call, 0, L - 1))
+        cands.append(_cut(call, 1, L))
+    if hung:                                  # every candidate may cost a timeout: try only a few
         for c in cands[:3]:
             yield c
         return
     for c in cands:
         yield c
-    if inp['max_iter'] > 1 or inp['max_iter'] == -1:
-        yield dict(inp, max_iter=1)
-        yield dict(inp, max_iter=2)
-    H = len(inp['net']['W1'])
+    if call.get('forms'):
+        yield dict(call, forms={})
+        for k in call['forms']:
+            yield dict(call, forms={a: b for a, b in call['forms'].items() if a != k})
+    if call['max_iter'] > 1 or call['max_iter'] == -1:
+        yield dict(call, max_iter=1)
+        yield dict(call, max_iter=2)
+    H = len(call['net']['W1'])
     if H > 1:
         for h in range(H):
-            net = dict(inp['net'])
+            net = dict(call['net'])
             net['W1'] = net['W1'][:h] + net['W1'][h + 1:]
             net['b1'] = net['b1'][:h] + net['b1'][h + 1:]
             net['W2'] = [w[:h] + w[h + 1:] for w in net['W2']]
-            yield dict(inp, net=net)
-    n = len(inp['net']['W2'])
-    if n > 1:
-        mk = mask_of(inp)
-        for j in range(n):
-            if not mk[j]:                     # an unmasked output can go without changing the mean
-                net = dict(inp['net'])
-                net['W2'] = net['W2'][:j] + net['W2'][j + 1:]
-                net['b2'] = net['b2'][:j] + net['b2'][j + 1:]
-                yield dict(inp, net=net, target=inp['target'][:j] + inp['target'][j + 1:],
-                           mask=mk[:j] + mk[j + 1:])
-    if inp['batch_size'] != 32:
-        yield dict(inp, batch_size=32)
-    if inp['tol'] != [0, 1]:
-        yield dict(inp, tol=[0, 1])
-    for i, mo in enumerate(inp['motifs']):
+            yield dict(call, net=net)
+    if not call.get('T'):
+        n = len(call['net']['W2'])
+        if n > 1:
+            mk = mask_of(call)
+            for j in range(n):
+                if not mk[j]:                 # an unmasked output can go without changing the mean
+                    net = dict(call['net'])
+                    net['W2'] = net['W2'][:j] + net['W2'][j + 1:]
+                    net['b2'] = net['b2'][:j] + net['b2'][j + 1:]
+                    yield dict(call, net=net, target=call['target'][:j] + call['target'][j + 1:],
+                               mask=mk[:j] + mk[j + 1:])
+    if call['batch_size'] != 32:
+        yield dict(call, batch_size=32)
+    if call['tol'] != [0, 1] and form(call, 'tol_form') != 'default':
+        yield dict(call, tol=[0, 1])
+    for i, mo in enumerate(call['motifs']):
         if len(mo) > 1:
-            yield dict(inp, motifs=inp['motifs'][:i] + [mo[:-1]] + inp['motifs'][i + 1:])
+            yield dict(call, motifs=call['motifs'][:i] + [mo[:-1]] + call['motifs'][i + 1:])
+
+
+def _consistent(call):
+    """forms that only exist for particular values must go when the value is shrunk away"""
+    f = dict(call.get('forms', {}))
+    if f.get('max_form') == 'default' and call['max_iter'] != -1:
+        f.pop('max_form')
+    if f.get('bs_form') == 'default' and call['batch_size'] != 32:
+        f.pop('bs_form')
+    tol = Fraction(call['tol'][0], call['tol'][1])
+    if f.get('tol_form') == 'int' and tol.denominator != 1:
+        f.pop('tol_form')
+    if f.get('tol_form') == 'default' and tol != DEFAULT_TOL:
+        f.pop('tol_form')
+    if call['mask'] is None:
+        f.pop('mask_form', None)
+    return dict(call, forms=f)
+
+
+def shrink(inp):
+    _isolate[0] = True              # from here on every run is isolated: the minimised case must fail by itself
+    calls = calls_of(inp)
+    hung = _key(inp) in _hung
+    meta = {k: v for k, v in inp.items() if k in ('stream',)}
+    if len(calls) > 1:
+        for i in range(len(calls)):
+            yield dict(meta, calls=calls[:i] + calls[i + 1:])
+        if hung:
+            return
+        for i, c in enumerate(calls):
+            if c.get('forms'):
+                yield dict(meta, calls=calls[:i] + [dict(c, forms={})] + calls[i + 1:])
+        return
+    for c in shrink_call(calls[0], hung):
+        yield dict(meta, calls=[_consistent(c)])
